@@ -1070,10 +1070,8 @@ func (r *Runtime) typedArrayProto_set(call FunctionCall) Value {
 				panic(r.newError(r.getRangeError(), "Source is too large"))
 			}
 			for i := 0; i < srcLen; i++ {
-				val := nilSafe(srcObj.self.getIdx(valueInt(i), nil))
-				if ta.isValidIntegerIndex(targetOffset + i) {
-					ta.typedArray.set(ta.offset+targetOffset+i, val)
-				}
+				// TypedArraySetElement: convert the value first (it may detach the buffer), then validate the index
+				ta._putIdx(targetOffset+i, nilSafe(srcObj.self.getIdx(valueInt(i), nil)))
 			}
 		}
 		return _undefined
